@@ -124,6 +124,14 @@ Proof. exact (conj cta_rejected (conj cta_accepted cta_stale_still_guarded)). Qe
    C04_send_delivery_some), the calls are linearizable on the sequential model with the observed results and final registry,
    and the search concluded within its budget (lin_budget = 200000 nodes; running out of it is reported as KLinBudget, i.e. a
    non-empty list, never as acceptance). *)
+(* the registry's map mutations are a pseudo field (roots!) guarded by Broker.lock: a Delete performed after the lock was released is
+   rejected, inside the critical section accepted (per run: Obl_C04.v registry_map_mutations_under_lock) *)
+Theorem C04_nonvacuous_registry_mutation_under_lock :
+  flat_complaints (check_program (registry_contracts [("RemovePipeline", remove_delete_late)]%string) [("RemovePipeline", remove_delete_late)]%string ["RemovePipeline"]%string [] [])
+    = [("RemovePipeline", KUnguardedWrite, "graph.roots!")]%string /\
+  check_program (registry_contracts [("RemovePipeline", remove_delete_locked)]%string) [("RemovePipeline", remove_delete_locked)]%string ["RemovePipeline"]%string [] [] = [].
+Proof. exact (conj delete_after_unlock_rejected delete_under_lock_accepted). Qed.
+
 Theorem C04_verdict_is_linearizable_history : forall cs,
   mismatches cs = [] <->
   Forall (fun c => delivery_oracle_ok c /\ linearizable (cc_final c) b0 (cc_ops c) /\ search_conclusive c) cs.
